@@ -133,7 +133,7 @@ class GlobalState:
 
 
 def run_inproc(spec, args, disk=False, found_suites='auto', cwd=None, script_parts=None, keep_dir=False,
-               before=None, stdin=None, warnings_arg=None, use_run_internal=False):
+               before=None, stdin=None, warnings_arg=None, use_run_internal=False, defaults=None):
     """Run ``Runner`` inside this process on ``spec``.
 
     disk=False: the world is built in memory and handed over as ``found_suites``.
@@ -176,10 +176,10 @@ def run_inproc(spec, args, disk=False, found_suites='auto', cwd=None, script_par
         try:
             if use_run_internal:
                 import zope.testrunner
-                run.failed = zope.testrunner.run_internal([], argv, script_parts=script_parts or [ZT_MAIN],
+                run.failed = zope.testrunner.run_internal(list(defaults or []), argv, script_parts=script_parts or [ZT_MAIN],
                                                           cwd=cwd or gs.cwd, warnings=warnings_arg)
             else:
-                runner = Runner([], argv, found_suites=suites, script_parts=script_parts or [ZT_MAIN],
+                runner = Runner(list(defaults or []), argv, found_suites=suites, script_parts=script_parts or [ZT_MAIN],
                                 cwd=cwd or gs.cwd, warnings=warnings_arg)
                 run.runner = runner
                 runner.run()
